@@ -276,12 +276,19 @@ type c01Case struct {
 	Tail        string  `json:"tail"`
 	Unsupported ReqSpec `json:"unsupported"`
 	Split       []int   `json:"split,omitempty"` // write() boundaries (per mille of the stream)
+	// Sequential: the client sends one request at a time and waits for its response; message IDs then
+	// come from a pool of three values, so an ID is reused as soon as the earlier exchange has completed
+	// (legal: RFC 4511 4.1.1.1 only forbids reuse while the earlier request is outstanding). LingerUs:
+	// the handler stays in its function that long after writing its response.
+	Sequential bool `json:"sequential,omitempty"`
+	LingerUs   int  `json:"linger_us,omitempty"`
 }
 
 type recorder struct {
-	mu  sync.Mutex
-	obs []Obs
-	ch  chan struct{}
+	mu     sync.Mutex
+	obs    []Obs
+	ch     chan struct{}
+	linger time.Duration // handlers stay that long in their function after responding
 }
 
 func (rc *recorder) add(o Obs) {
@@ -308,6 +315,9 @@ func recordingMux(rc *recorder, extNames []string, respond bool) *gldap.Mux {
 			rc.add(observe(r, label))
 			if respond && label != "unbind" {
 				_ = w.Write(r.NewResponse(gldap.WithResponseCode(gldap.ResultSuccess), gldap.WithDiagnosticMessage(label)))
+				if rc.linger > 0 {
+					time.Sleep(rc.linger)
+				}
 			}
 		}
 	}
@@ -345,7 +355,85 @@ func sendSplit(cl *lab.Client, buf []byte, split []int) {
 	_ = cl.Send(buf[prev:])
 }
 
+// c01ExecSequential: one request at a time on one connection, message IDs reused between exchanges.
+func c01ExecSequential(c c01Case, st *lab.Stats) *lab.Fail {
+	rc := &recorder{ch: make(chan struct{}, 1), linger: time.Duration(c.LingerUs) * time.Microsecond}
+	extSet := map[string]bool{}
+	var exts []string
+	for _, r := range c.Reqs {
+		if r.Kind == "extended" && !extSet[string(r.ExtName)] {
+			extSet[string(r.ExtName)] = true
+			exts = append(exts, string(r.ExtName))
+		}
+		st.Case(nontrivialReq(r), append(r.Bytes(), 's'), append(reqClasses(r), "sequential-id-reuse")...)
+	}
+	st.Sample(c)
+	srv, err := lab.StartServer(recordingMux(rc, exts, true), lab.ServerOpts{})
+	if err != nil {
+		st.Inconclusive(err.Error())
+		return nil
+	}
+	defer func() { _ = srv.Stop(10 * time.Second) }()
+	cl, err := lab.Dial(srv.Addr)
+	if err != nil {
+		st.Inconclusive(err.Error())
+		return nil
+	}
+	defer cl.Abort()
+	for i, r := range c.Reqs {
+		_ = cl.Send(r.Bytes())
+		m, err := cl.Next(10 * time.Second)
+		if err != nil {
+			return lab.Failf("no-response", "sequential exchange %d (%s msgid=%d, the ID was used by %d earlier completed exchanges): no response (%v); server log: %s", i, r.Kind, r.MsgID, countEarlier(c.Reqs, i), err, truncate(srv.Log.String()))
+		}
+		res, rerr := m.Result()
+		if m.ID != r.MsgID || rerr != nil || res.Code != 0 {
+			code := int64(-1)
+			if rerr == nil {
+				code = res.Code
+			}
+			return lab.Failf("sequential-response", "sequential exchange %d (%s msgid=%d, the ID was used by %d earlier completed exchanges): response has message ID %d, result code %d (want the handler's success)", i, r.Kind, r.MsgID, countEarlier(c.Reqs, i), m.ID, code)
+		}
+	}
+	// handlers run one at a time here, so observation i belongs to request i
+	deadline := time.Now().Add(5 * time.Second)
+	for len(rc.snapshot()) < len(c.Reqs) && time.Now().Before(deadline) {
+		time.Sleep(200 * time.Microsecond)
+	}
+	obs := rc.snapshot()
+	if len(obs) != len(c.Reqs) {
+		return lab.Failf("missing-dispatch", "%d handler invocations for %d sequential requests", len(obs), len(c.Reqs))
+	}
+	for i, r := range c.Reqs {
+		o := obs[i]
+		wantRoute := r.Kind
+		if r.Kind == "extended" {
+			wantRoute = "ext:" + string(r.ExtName)
+		}
+		if o.Route != wantRoute {
+			return lab.Failf("field:"+r.Kind+":kind", "sequential request %d (%s msgid=%d) was served by route %q", i, r.Kind, r.MsgID, o.Route)
+		}
+		if f := compareObs(r, o); f != nil {
+			return f
+		}
+	}
+	return nil
+}
+
+func countEarlier(reqs []ReqSpec, i int) int {
+	n := 0
+	for j := 0; j < i; j++ {
+		if reqs[j].MsgID == reqs[i].MsgID {
+			n++
+		}
+	}
+	return n
+}
+
 func c01ExecTCP(c c01Case, st *lab.Stats) *lab.Fail {
+	if c.Sequential {
+		return c01ExecSequential(c, st)
+	}
 	rc := &recorder{ch: make(chan struct{}, 1)}
 	extSet := map[string]bool{}
 	var exts []string
@@ -520,11 +608,20 @@ func genC01Case(maxReqs int, big bool) func(t *rapid.T) c01Case {
 		if rapid.Bool().Draw(t, "split") {
 			c.Split = rapid.SliceOfN(rapid.IntRange(1, 999), 1, 4).Draw(t, "cuts")
 		}
+		if rapid.IntRange(0, 5).Draw(t, "sequential") == 0 {
+			// one exchange at a time, IDs from a pool of three: reuse after completion
+			c.Sequential, c.Tail, c.Split = true, "", nil
+			pool := distinctMsgIDs(t, 3, 1)
+			for i := range c.Reqs {
+				c.Reqs[i].MsgID = pool[rapid.IntRange(0, 2).Draw(t, "idpool")]
+			}
+			c.LingerUs = rapid.SampledFrom([]int{0, 0, 100, 1000, 5000}).Draw(t, "linger")
+		}
 		return c
 	}
 }
 
-const c01Rule = "rapid: pipelines of 1..12 (occasionally up to 64) typed requests of the six answerable operations with arbitrary byte strings, message IDs 1..2^31-1 (never equal to the arrival number), go-ldap-round-trippable filters from a recursive grammar, 0..4 attributes/changes/values and 0..4 controls of all kinds, encoded by the independent encoder; optional tail = Unbind or an unsupported operation / bind version != 3; oracle = field-by-field equality with the deep copy the handler took; non-trivial = >= 2 list elements or >= 1 control or size != time / scope != deref; distinct by hash of the encoded request"
+const c01Rule = "rapid: pipelines of 1..12 (occasionally up to 64) typed requests of the six answerable operations with arbitrary byte strings, message IDs 1..2^31-1 (never equal to the arrival number), go-ldap-round-trippable filters from a recursive grammar, 0..4 attributes/changes/values and 0..4 controls of all kinds, encoded by the independent encoder; optional tail = Unbind or an unsupported operation / bind version != 3; one case in six is a SEQUENTIAL session (one exchange at a time, message IDs reused as soon as the earlier exchange has completed, handlers lingering 0..5 ms after responding); oracle = field-by-field equality with the deep copy the handler took; non-trivial = >= 2 list elements or >= 1 control or size != time / scope != deref; distinct by hash of the encoded request"
 
 func TestC01TCP(t *testing.T) {
 	lab.Prop[c01Case]{ID: "C01", Part: "tcp", Rule: c01Rule, Gen: genC01Case(12, true), Exec: c01ExecTCP}.Run(t)
